@@ -70,6 +70,10 @@ def unpivot(unpivot_fields, extra_keys, extra_value, regex=True, resources=None)
                     config['unpivot_fields_without_regex'].append(field_to_pivot)
 
             config['fields_to_keep'] = [f['name'] for f in fields]
+            # a primary key that lost one of its fields is no key any more
+            pk = schema.get('primaryKey')
+            if pk and not set([pk] if isinstance(pk, str) else pk) <= set(config['fields_to_keep']):
+                del schema['primaryKey']
             # every resource gets field descriptors of its own
             fields.extend(copy.deepcopy(extra_keys))
             fields.append(copy.deepcopy(extra_value))
